@@ -71,11 +71,18 @@ class BeamRates:
         self.q0 = dict(_Q0)
         self.q0.update(spec.get("q0", {}))
         self.override = spec.get("override", {})
+        self._cache = {}
 
     # ---- coefficients
     def coefficients(self, family, key):
         """(q0, [p_i]) of the function for (family, key)."""
         full = family + "|" + key
+        if full in self._cache:
+            return self._cache[full]
+        self._cache[full] = out = self._coefficients(family, key, full)
+        return out
+
+    def _coefficients(self, family, key, full):
         if full in self.override:
             o = self.override[full]
             return float(o["q0"]), [float(p) for p in o["p"]]
